@@ -554,6 +554,13 @@ func (c *Ctx) checkP2PMask() {
 				n++
 				r.OK("C07.5-p2p-mask", fmt.Sprintf("%s: (x & ModeCP2P) | ModeApprove #%d", fk(fn), n), c.pos(b), "")
 				r.Func(fk(fn))
+				// an extracted mask helper: each of its call sites is an application of the mask
+				if ret := singleReturnOf(fn); ret != nil && len(ret.Results) == 1 && ret.Results[0] == ssa.Value(b) {
+					for _, cs := range c.callersOf(fn) {
+						n++
+						r.OK("C07.5-p2p-mask", fmt.Sprintf("%s: mask helper %s applied #%d", fk(cs.Caller), fn.Name(), n), c.pos(cs.Site), "")
+					}
+				}
 			}
 		})
 	}
@@ -626,26 +633,65 @@ func (c *Ctx) checkSysAndSelfNames() {
 	derivesFrom := func(v ssa.Value, f *types.Var) bool { return derivesThroughCalls(v, core.IsFieldLoad(f), 0) }
 	nSelf := 0
 	okAll := true
-	core.AllInstrs(etn, func(in ssa.Instruction) {
-		ret, ok := in.(*ssa.Return)
-		if !ok {
-			return
+	for _, self := range []string{"me", "fnd"} {
+		self := self
+		// with msg.Original fixed to "me"/"fnd" every comparison of it with a constant is decided
+		core.AssumeFn = func(a core.CondAtom) (bool, bool) {
+			if a.Op != token.EQL {
+				return false, false
+			}
+			var other ssa.Value
+			if core.IsFieldLoad(orig)(a.X) {
+				other = a.Y
+			} else if core.IsFieldLoad(orig)(a.Y) {
+				other = a.X
+			}
+			if other == nil {
+				return false, false
+			}
+			kc, ok := core.Strip(other).(*ssa.Const)
+			if !ok || kc.Value == nil || kc.Value.Kind() != constant.String {
+				return false, false
+			}
+			return true, constant.StringVal(kc.Value) == self
 		}
-		phi, ok := ret.Results[0].(*ssa.Phi)
-		if !ok {
-			return
-		}
-		for i, e := range phi.Edges {
-			pred := phi.Block().Preds[i]
-			k := origComparedWith(pred, orig)
-			if k == "me" || k == "fnd" {
-				nSelf++
-				if !derivesFrom(e, asUser) || derivesFrom(e, orig) {
+		cut := core.AssumedCuts(etn)
+		core.AssumeFn = nil
+		reach := core.ReachBlocks(etn, nil, cut)
+		seen := 0
+		core.AllInstrs(etn, func(in ssa.Instruction) {
+			ret, ok := in.(*ssa.Return)
+			if !ok || !reach[ret.Block()] {
+				return
+			}
+			var vals []ssa.Value
+			if phi, isPhi := ret.Results[0].(*ssa.Phi); isPhi && phi.Block() == ret.Block() {
+				for i, e := range phi.Edges {
+					pred := phi.Block().Preds[i]
+					edgeCut := false
+					for si, su := range pred.Succs {
+						if su == phi.Block() && cut[core.Edge{From: pred, Idx: si}] {
+							edgeCut = true
+						}
+					}
+					if reach[pred] && !edgeCut {
+						vals = append(vals, e)
+					}
+				}
+			} else {
+				vals = append(vals, ret.Results[0])
+			}
+			for _, v := range vals {
+				seen++
+				if !derivesFrom(v, asUser) || derivesFrom(v, orig) {
 					okAll = false
 				}
 			}
+		})
+		if seen > 0 {
+			nSelf++
 		}
-	})
+	}
 	r.Check(okAll && nSelf == 2, "C07.7-sys-root-and-self-names", fk(etn)+": me/fnd expand to names derived from the acting user only", c.P.Pos(etn.Pos()), "", "the routable name of 'me'/'fnd' can be influenced by client input other than the acting user")
 }
 
@@ -756,4 +802,20 @@ func (c *Ctx) argIsIntersection(fn *ssa.Function, v ssa.Value, depth int) bool {
 		}
 	}
 	return true
+}
+
+// singleReturnOf: the only Return instruction of fn, or nil.
+func singleReturnOf(fn *ssa.Function) *ssa.Return {
+	var out *ssa.Return
+	n := 0
+	core.AllInstrs(fn, func(in ssa.Instruction) {
+		if r, ok := in.(*ssa.Return); ok {
+			out = r
+			n++
+		}
+	})
+	if n != 1 {
+		return nil
+	}
+	return out
 }
